@@ -1,7 +1,7 @@
 (* C08 — property theorems (statements only; proofs are in C08_lemmas.v, about the
    matrices regenerated from /repo in this run). *)
 From AV Require Import DenR Mat.
-From AVchk Require Import Gen_C08 C08_lemmas.
+From AVchk Require Import Gen_C08 C08_lemmas Gen_C08prod C08_products.
 Open Scope R_scope.
 
 (* general boost: for every time-like p with non-zero three-momentum *)
@@ -92,6 +92,27 @@ Theorem C08_rotz_numpy : forall a,
   denM (envA a) rotz_numpy_nocse = denM (envA a) rotz_explicit.
 Proof. exact rotz_numpy_eq. Qed.
 
+(* rotations whose angle argument is a compound expression (a+c, a-c, 3a, -a): the generated code
+   (cse on and off) is the rotation matrix at the value of the argument *)
+Theorem C08_rotation_compound_angle_numpy : forall a c,
+  (denM (envAC a c) roty_sum_numpy_cse = denM (envA (a + c)) roty_explicit /\
+   denM (envAC a c) roty_sum_numpy_nocse = denM (envA (a + c)) roty_explicit /\
+   denM (envAC a c) rotz_sum_numpy_cse = denM (envA (a + c)) rotz_explicit /\
+   denM (envAC a c) rotz_sum_numpy_nocse = denM (envA (a + c)) rotz_explicit) /\
+  (denM (envAC a c) roty_diff_numpy_cse = denM (envA (a - c)) roty_explicit /\
+   denM (envAC a c) roty_diff_numpy_nocse = denM (envA (a - c)) roty_explicit /\
+   denM (envAC a c) rotz_diff_numpy_cse = denM (envA (a - c)) rotz_explicit /\
+   denM (envAC a c) rotz_diff_numpy_nocse = denM (envA (a - c)) rotz_explicit) /\
+  (denM (envAC a c) roty_triple_numpy_cse = denM (envA (3 * a)) roty_explicit /\
+   denM (envAC a c) roty_triple_numpy_nocse = denM (envA (3 * a)) roty_explicit /\
+   denM (envAC a c) rotz_triple_numpy_cse = denM (envA (3 * a)) rotz_explicit /\
+   denM (envAC a c) rotz_triple_numpy_nocse = denM (envA (3 * a)) rotz_explicit) /\
+  (denM (envAC a c) roty_neg_numpy_cse = denM (envA (- a)) roty_explicit /\
+   denM (envAC a c) roty_neg_numpy_nocse = denM (envA (- a)) roty_explicit /\
+   denM (envAC a c) rotz_neg_numpy_cse = denM (envA (- a)) rotz_explicit /\
+   denM (envAC a c) rotz_neg_numpy_nocse = denM (envA (- a)) rotz_explicit).
+Proof. exact rot_compound_numpy_eq. Qed.
+
 (* metric and space inversion as generated NumPy code *)
 Theorem C08_metric_numpy : forall E x y z,
   denM (envP E x y z) metric_numpy = etaM /\ denM (envP E x y z) metric_explicit = etaM.
@@ -104,7 +125,27 @@ Proof. exact negp_numpy. Qed.
 Example C08_example_premises : timelike 2 (1/10) (1/5) (3/10) /\ moving (1/10) (1/5) (3/10) /\ -1 < 1/2 < 1.
 Proof. unfold timelike, moving. repeat split; lra. Qed.
 
+(* Products: the NumPy code generated for MatrixMultiplication / ArrayMultiplication chains of k generic
+   operands (k up to 5 in the quick tier, 7 in the thorough tier; cse on and off) is the ordered matrix
+   product of all operands, for every environment (= all real matrices, the operands being distinct symbols). *)
+Theorem C08_matrix_product_code : Forall matrix_product_ok gen_matrix_products.
+Proof. exact matrix_products_ok. Qed.
+Theorem C08_array_product_code : Forall array_product_ok gen_array_products.
+Proof. exact array_products_ok. Qed.
+Theorem C08_product_operands_generic :
+  forallb (fun c => generic_operands (snd c) []) gen_matrix_products = true /\
+  forallb (fun c => generic_operands (snd (fst c)) (snd c)) gen_array_products = true.
+Proof. split; [exact matrix_products_generic | exact array_products_generic]. Qed.
+Theorem C08_product_chain_lengths_covered :
+  forallb (fun k => existsb (Nat.eqb k) chain_lengths_m) [1; 2; 3; 4; 5]%nat = true /\
+  forallb (fun k => existsb (Nat.eqb k) chain_lengths_a) [2; 3; 4; 5]%nat = true.
+Proof. split; vm_compute; reflexivity. Qed.
+
 Print Assumptions C08_boost_defined.
+Print Assumptions C08_matrix_product_code.
+Print Assumptions C08_array_product_code.
+Print Assumptions C08_product_operands_generic.
+Print Assumptions C08_product_chain_lengths_covered.
 Print Assumptions C08_boost_lorentz.
 Print Assumptions C08_boost_det.
 Print Assumptions C08_boost_00.
@@ -134,6 +175,7 @@ Print Assumptions C08_roty_inverse.
 Print Assumptions C08_rotz_inverse.
 Print Assumptions C08_roty_numpy.
 Print Assumptions C08_rotz_numpy.
+Print Assumptions C08_rotation_compound_angle_numpy.
 Print Assumptions C08_metric_numpy.
 Print Assumptions C08_negative_momentum_numpy.
 Print Assumptions C08_example_premises.
